@@ -11,6 +11,7 @@ From VQ Require Import Model.NonFinite Proofs.NonFiniteProofs Glue.NonFiniteGlue
 From VQ Require Import Glue.Pin_o_vq_mask_proj Glue.Pin_o_rvq_mask_proj.
 From VQ Require Import Model.Strides Proofs.StridesProofs Glue.Pin_inv_view_writes.
 From VQ Require Import Proofs.StridesGeneral.
+From VQ Require Import Proofs.LensWrap.
 Import ListNotations.
 Open Scope R_scope.
 
@@ -331,3 +332,26 @@ Theorem C09_expanded_write_aliases :
          get A (write_through_reshape A zero m t rows) t i j k <> where_rows A zero m t rows i j k.
 Proof. exact (@StridesGeneral.expanded_write_aliases). Qed.
 Print Assumptions C09_expanded_write_aliases.
+
+Theorem C09_lens_kernel_is_exact_integer_spec :
+  forall pos len : Z, k_lens_to_mask.k_lens_to_mask pos len = mask_spec pos len.
+Proof. exact (@LensWrap.source_kernel_is_spec). Qed.
+Print Assumptions C09_lens_kernel_is_exact_integer_spec.
+
+Theorem C09_lens_uint8_positions_refuted :
+  exists pos len : Z,
+         (0 <= len < 256)%Z /\
+         (len <= pos)%Z /\ mask_u8_positions pos len = true /\ mask_spec pos len = false.
+Proof. exact (@LensWrap.u8_positions_refuted). Qed.
+Print Assumptions C09_lens_uint8_positions_refuted.
+
+Theorem C09_lens_uint8_predecessor_refuted :
+  exists pos len : Z,
+         len = 0%Z /\ (0 <= pos)%Z /\ mask_u8_pred pos len = true /\ mask_spec pos len = false.
+Proof. exact (@LensWrap.u8_pred_refuted). Qed.
+Print Assumptions C09_lens_uint8_predecessor_refuted.
+
+Theorem C09_lens_uint8_positions_ok_in_range :
+  forall pos len : Z, (0 <= pos < 256)%Z -> mask_u8_positions pos len = mask_spec pos len.
+Proof. exact (@LensWrap.u8_positions_ok). Qed.
+Print Assumptions C09_lens_uint8_positions_ok_in_range.
